@@ -69,9 +69,9 @@ var checks = map[string]*Check{}
 func register(c *Check) { checks[c.ID] = c }
 
 var (
-	out        *os.File
-	verifDir   = "/verif"
-	deadline   time.Time
+	out         *os.File
+	verifDir    = "/verif"
+	deadline    time.Time
 	flagVerbose bool
 )
 
